@@ -221,8 +221,13 @@ fn inst_vals(inst: &BytecodeInstruction) -> (u8, Vec<u32>) {
 }
 
 /// expected instruction stream (pads compressed) consumed one real instruction at a time
+#[derive(Clone)]
+struct Exp { off: u64, op: i64, v: Vec<u32> }
+fn parse_exp(insts: &[Value]) -> Vec<Exp> {
+    insts.iter().map(|e| Exp { off: e["off"].as_u64().unwrap(), op: e["op"].as_i64().unwrap(), v: u32s(&e["v"]) }).collect()
+}
 struct Matcher<'a> {
-    exp: &'a [Value],
+    exp: &'a [Exp],
     i: usize,
     pad_done: u64,
     count: u64,
@@ -230,26 +235,24 @@ struct Matcher<'a> {
 }
 
 impl<'a> Matcher<'a> {
-    fn new(exp: &'a [Value]) -> Matcher<'a> { Matcher { exp, i: 0, pad_done: 0, count: 0, err: None } }
+    fn new(exp: &'a [Exp]) -> Matcher<'a> { Matcher { exp, i: 0, pad_done: 0, count: 0, err: None } }
+    #[inline]
     fn feed(&mut self, off: u32, op: u8, v: &[u32]) {
         if self.err.is_some() { return; }
         self.count += 1;
         let Some(e) = self.exp.get(self.i) else { self.err = Some(format!("extra instruction read at offset {}: op {} {:?}", off, op, v)); return };
-        let eop = e["op"].as_i64().unwrap();
-        let eoff = e["off"].as_u64().unwrap();
-        if eop == PAD_OP {
-            let n = e["v"][0].as_u64().unwrap();
-            if op != opc::BYTECODE_OPCODE_LOOP_START || !v.is_empty() || off as u64 != eoff + self.pad_done {
-                self.err = Some(format!("inside Pad({}) at {}+{}: read op {} {:?} at offset {}", n, eoff, self.pad_done, op, v, off));
+        if e.op == PAD_OP {
+            let n = e.v[0] as u64;
+            if op != opc::BYTECODE_OPCODE_LOOP_START || !v.is_empty() || off as u64 != e.off + self.pad_done {
+                self.err = Some(format!("inside Pad({}) at {}+{}: read op {} {:?} at offset {}", n, e.off, self.pad_done, op, v, off));
                 return;
             }
             self.pad_done += 1;
             if self.pad_done == n { self.pad_done = 0; self.i += 1; }
             return;
         }
-        let ev: Vec<u32> = e["v"].as_array().unwrap().iter().map(|x| x.as_u64().unwrap() as u32).collect();
-        if eop != op as i64 || eoff != off as u64 || ev != v {
-            self.err = Some(format!("instruction #{}: spec (off {}, op {}, {:?}) vs. read back (off {}, op {}, {:?})", self.i, eoff, eop, ev, off, op, v));
+        if e.op != op as i64 || e.off != off as u64 || e.v != v {
+            self.err = Some(format!("instruction #{}: spec (off {}, op {}, {:?}) vs. read back (off {}, op {}, {:?})", self.i, e.off, e.op, e.v, off, op, v));
             return;
         }
         self.i += 1;
@@ -459,13 +462,18 @@ pub fn check_row(row: &Value) -> Option<(String, String)> {
     };
     let segs = row["code"].as_array().unwrap();
     if let Some(d) = cmp_code(body.code(), segs) { return Some(("code-bytes".into(), d)); }
-    let exp = row["insts"].as_array().unwrap();
+    let exp = parse_exp(row["insts"].as_array().unwrap());
     // reader 1: the BytecodeReader iterator
     let code = body.code().to_vec();
     let exp1 = exp.clone();
     let r1 = std::panic::catch_unwind(move || {
         let mut m = Matcher::new(&exp1);
         for (start, opcode, inst) in BytecodeReader::new(&code) {
+            if let BytecodeInstruction::LoopStart = inst {
+                if opcode != BytecodeOpcode::LoopStart { return Some(format!("reader reports a LoopStart instruction for opcode byte {} at {}", u8::from(opcode), start)); }
+                m.feed(start as u32, opc::BYTECODE_OPCODE_LOOP_START, &[]);
+                continue;
+            }
             let (op, v) = inst_vals(&inst);
             let byte: u8 = opcode.into();
             if byte != op { return Some(format!("reader reports opcode {} with an instruction of opcode {} at {}", byte, op, start)); }
@@ -550,78 +558,116 @@ fn tree_opcodes(path: &str) -> Vec<(String, u8)> {
     out
 }
 
-/// vbc replay <rows-file>... [--opcodes <opcode.rs>] [--selftest]
-pub fn run(args: &[String]) -> i32 {
-    std::panic::set_hook(Box::new(|_| {}));
-    let mut files: Vec<String> = Vec::new();
-    let mut opcode_rs: Option<String> = None;
-    let mut selftest = false;
-    let mut i = 0;
-    while i < args.len() {
-        match args[i].as_str() {
-            "--opcodes" => { opcode_rs = Some(args[i + 1].clone()); i += 1; }
-            "--selftest" => selftest = true,
-            f => files.push(f.to_string()),
-        }
-        i += 1;
-    }
-    let mut stats: BTreeMap<u8, OpStat> = BTreeMap::new();
-    let mut bad: Vec<Value> = Vec::new();
-    let (mut rows, mut insts, mut with_fwd, mut with_loop, mut with_table, mut max_code) = (0u64, 0u64, 0u64, 0u64, 0u64, 0u64);
-    let (mut st_tried, mut st_detected) = (0u64, 0u64);
-    let mut optable: Vec<Value> = Vec::new();
-    let mut first_undetected: Option<Value> = None;
-    for f in &files {
-        let fh = std::io::BufReader::new(std::fs::File::open(f).expect("rows file"));
-        for line in fh.lines() {
-            let line = line.unwrap();
-            if !line.starts_with("\"{") { continue; }
-            let inner: String = serde_json::from_str(&line).unwrap();
-            let row: Value = serde_json::from_str(&inner).unwrap();
-            if let Some(t) = row.get("optable") { if optable.is_empty() { optable = t.as_array().unwrap().clone(); } continue; }
-            if row.get("items").is_none() { continue; }
-            rows += 1;
-            match check_row(&row) {
-                Some((what, detail)) => { if bad.len() < 40 { bad.push(json!({"kind":"mismatch","what":what,"detail":detail,"items":row["items"],"file":f})); } }
-                None => {
-                    let mut len = 0u64;
-                    for s in row["code"].as_array().unwrap() { len += if s["t"] == "b" { s["b"].as_array().unwrap().len() as u64 } else { s["n"].as_u64().unwrap() }; }
-                    max_code = max_code.max(len);
-                    let (mut fw, mut lp) = (false, false);
-                    for e in row["insts"].as_array().unwrap() {
-                        let op = e["op"].as_i64().unwrap();
-                        if op == PAD_OP { insts += e["v"][0].as_u64().unwrap(); stats.entry(opc::BYTECODE_OPCODE_LOOP_START).or_default().ok += 1; continue; }
-                        insts += 1;
-                        let v = u32s(&e["v"]);
-                        let s = stats.entry(op as u8).or_default();
-                        s.ok += 1;
-                        if v.iter().any(|&x| x >= 128) { s.wide += 1 } else { s.narrow += 1 }
-                        let op = op as u8;
-                        fw |= op == opc::BYTECODE_OPCODE_JUMP || op == opc::BYTECODE_OPCODE_JUMP_IF_FALSE || op == opc::BYTECODE_OPCODE_JUMP_IF_TRUE;
-                        lp |= op == opc::BYTECODE_OPCODE_JUMP_LOOP;
-                    }
-                    with_fwd += fw as u64; with_loop += lp as u64;
-                    with_table += row["pool"].as_array().unwrap().iter().any(|e| e["t"] == "jt") as u64;
-                    // negative control: a perturbed expectation must be noticed
-                    if selftest && st_tried < 600 && rows % 7 == 0 && len > 0 && len < 100_000 {
-                        for mode in 0..3 {
-                            let mut r2 = row.clone();
-                            let changed = match mode {
-                                0 => { let mut done = false; for s in r2["code"].as_array_mut().unwrap() { if s["t"] == "b" { let b = s["b"].as_array_mut().unwrap(); let k = b.len() - 1; let x = b[k].as_u64().unwrap(); b[k] = json!((x + 1) % 256); done = true; break; } } done }
-                                1 => { let mut done = false; for e in r2["insts"].as_array_mut().unwrap() { if e["op"].as_i64().unwrap() >= 0 { if let Some(v) = e["v"].as_array_mut() { if let Some(x) = v.last_mut() { *x = json!(x.as_u64().unwrap() + 1); done = true; break; } } } } done }
-                                _ => { let mut done = false; for it in r2["items"].as_array_mut().unwrap() { if it["k"] == "pad" { it["n"] = json!(it["n"].as_u64().unwrap() + 1); done = true; break; } if it["k"] == "inst" && it["v"].as_array().map(|v| !v.is_empty() && v[0].as_u64().unwrap() < 0x7FFF_FFFF).unwrap_or(false) { let v = it["v"].as_array_mut().unwrap(); v[0] = json!(v[0].as_u64().unwrap() + 1); done = true; break; } } done }
-                            };
-                            if !changed { continue; }
-                            st_tried += 1;
-                            if check_row(&r2).is_some() { st_detected += 1 } else if first_undetected.is_none() { first_undetected = Some(json!({"mode":mode,"items":r2["items"]})); }
-                        }
+#[derive(Default)]
+struct Part {
+    stats: BTreeMap<u8, OpStat>, bad: Vec<Value>, rows: u64, nbad: u64, insts: u64, with_fwd: u64, with_loop: u64, with_table: u64, max_code: u64,
+    st_tried: u64, st_detected: u64, first_undetected: Option<Value>,
+}
+
+fn perturb(row: &Value, mode: u32) -> Option<Value> {
+    let mut r2 = row.clone();
+    let changed = match mode {
+        0 => { let mut done = false; for s in r2["code"].as_array_mut().unwrap() { if s["t"] == "b" { let b = s["b"].as_array_mut().unwrap(); let k = b.len() - 1; let x = b[k].as_u64().unwrap(); b[k] = json!((x + 1) % 256); done = true; break; } } done }
+        1 => { let mut done = false; for e in r2["insts"].as_array_mut().unwrap() { if e["op"].as_i64().unwrap() >= 0 { if let Some(v) = e["v"].as_array_mut() { if let Some(x) = v.last_mut() { *x = json!(x.as_u64().unwrap() + 1); done = true; break; } } } } done }
+        _ => { let mut done = false; for it in r2["items"].as_array_mut().unwrap() { if it["k"] == "pad" { it["n"] = json!(it["n"].as_u64().unwrap() + 1); done = true; break; } if it["k"] == "inst" && it["v"].as_array().map(|v| !v.is_empty() && v[0].as_u64().unwrap() < 0x7FFF_FFFF).unwrap_or(false) { let v = it["v"].as_array_mut().unwrap(); v[0] = json!(v[0].as_u64().unwrap() + 1); done = true; break; } } done }
+    };
+    if changed { Some(r2) } else { None }
+}
+
+fn process(lines: Vec<(usize, String)>, files: &[String], selftest: bool, st_budget: u64) -> Part {
+    let mut p = Part::default();
+    for (fi, line) in lines {
+        let inner: String = serde_json::from_str(&line).unwrap();
+        let row: Value = serde_json::from_str(&inner).unwrap();
+        if row.get("items").is_none() { continue; }
+        p.rows += 1;
+        match check_row(&row) {
+            Some((what, detail)) => { p.nbad += 1; if p.bad.len() < 10 { p.bad.push(json!({"kind":"mismatch","what":what,"detail":detail,"items":row["items"],"file":files[fi]})); } }
+            None => {
+                let mut len = 0u64;
+                for s in row["code"].as_array().unwrap() { len += if s["t"] == "b" { s["b"].as_array().unwrap().len() as u64 } else { s["n"].as_u64().unwrap() }; }
+                p.max_code = p.max_code.max(len);
+                let (mut fw, mut lp) = (false, false);
+                for e in row["insts"].as_array().unwrap() {
+                    let op = e["op"].as_i64().unwrap();
+                    if op == PAD_OP { p.insts += e["v"][0].as_u64().unwrap(); p.stats.entry(opc::BYTECODE_OPCODE_LOOP_START).or_default().ok += 1; continue; }
+                    p.insts += 1;
+                    let v = u32s(&e["v"]);
+                    let s = p.stats.entry(op as u8).or_default();
+                    s.ok += 1;
+                    if v.iter().any(|&x| x >= 128) { s.wide += 1 } else { s.narrow += 1 }
+                    let op = op as u8;
+                    fw |= op == opc::BYTECODE_OPCODE_JUMP || op == opc::BYTECODE_OPCODE_JUMP_IF_FALSE || op == opc::BYTECODE_OPCODE_JUMP_IF_TRUE;
+                    lp |= op == opc::BYTECODE_OPCODE_JUMP_LOOP;
+                }
+                p.with_fwd += fw as u64; p.with_loop += lp as u64;
+                let big_pool = row["pool"].as_array().unwrap().iter().any(|e| e["n"].as_u64().unwrap_or(0) > 20_000 && e["t"] == "fill");
+                p.with_table += row["pool"].as_array().unwrap().iter().any(|e| e["t"] == "jt") as u64;
+                // negative control: a perturbed expectation (bytes / instruction list) or a perturbed call sequence must be noticed
+                if selftest && p.st_tried < st_budget && p.rows % 5 == 0 && len > 0 && len < 70_000 && !big_pool {
+                    for mode in 0..3 {
+                        let Some(r2) = perturb(&row, mode) else { continue };
+                        p.st_tried += 1;
+                        if check_row(&r2).is_some() { p.st_detected += 1 } else if p.first_undetected.is_none() { p.first_undetected = Some(json!({"mode":mode,"items":r2["items"]})); }
                     }
                 }
             }
         }
     }
+    p
+}
+
+/// vbc replay <rows-file>... [--opcodes <opcode.rs>] [--selftest] [--threads N]
+pub fn run(args: &[String]) -> i32 {
+    std::panic::set_hook(Box::new(|_| {}));
+    let mut files: Vec<String> = Vec::new();
+    let mut opcode_rs: Option<String> = None;
+    let mut selftest = false;
+    let mut nthreads = std::thread::available_parallelism().map(|n| n.get()).unwrap_or(4).min(12);
+    let mut i = 0;
+    while i < args.len() {
+        match args[i].as_str() {
+            "--opcodes" => { opcode_rs = Some(args[i + 1].clone()); i += 1; }
+            "--threads" => { nthreads = args[i + 1].parse().unwrap(); i += 1; }
+            "--selftest" => selftest = true,
+            f => files.push(f.to_string()),
+        }
+        i += 1;
+    }
+    let nthreads = nthreads.max(1);
+    let mut optable: Vec<Value> = Vec::new();
+    let mut buckets: Vec<Vec<(usize, String)>> = (0..nthreads).map(|_| Vec::new()).collect();
+    let mut k = 0usize;
+    for (fi, f) in files.iter().enumerate() {
+        let fh = std::io::BufReader::new(std::fs::File::open(f).expect("rows file"));
+        for line in fh.lines() {
+            let line = line.unwrap();
+            if !line.starts_with("\"{") { continue; }
+            if line.starts_with("\"{\\\"optable") {
+                if optable.is_empty() { let inner: String = serde_json::from_str(&line).unwrap(); let row: Value = serde_json::from_str(&inner).unwrap(); optable = row["optable"].as_array().unwrap().clone(); }
+                continue;
+            }
+            buckets[k % nthreads].push((fi, line));
+            k += 1;
+        }
+    }
+    let st_budget = (900 / nthreads as u64).max(30);
+    let handles: Vec<_> = buckets.into_iter().map(|b| { let files = files.clone(); std::thread::Builder::new().stack_size(64 << 20).spawn(move || process(b, &files, selftest, st_budget)).unwrap() }).collect();
+    let mut stats: BTreeMap<u8, OpStat> = BTreeMap::new();
+    let mut bad: Vec<Value> = Vec::new();
+    let (mut rows, mut nbad, mut insts, mut with_fwd, mut with_loop, mut with_table, mut max_code) = (0u64, 0u64, 0u64, 0u64, 0u64, 0u64, 0u64);
+    let (mut st_tried, mut st_detected) = (0u64, 0u64);
+    let mut first_undetected: Option<Value> = None;
+    for h in handles {
+        let p = h.join().expect("worker");
+        for (k, s) in p.stats { let e = stats.entry(k).or_default(); e.ok += s.ok; e.narrow += s.narrow; e.wide += s.wide; }
+        if bad.len() < 40 { bad.extend(p.bad); }
+        rows += p.rows; nbad += p.nbad; insts += p.insts; with_fwd += p.with_fwd; with_loop += p.with_loop; with_table += p.with_table; max_code = max_code.max(p.max_code);
+        st_tried += p.st_tried; st_detected += p.st_detected;
+        if first_undetected.is_none() { first_undetected = p.first_undetected; }
+    }
     for b in &bad { println!("{}", b); }
-    let mut summary = json!({"kind":"summary","rows":rows,"mismatches":bad.len(),"instructions_read_back":insts,"rows_with_forward_jump":with_fwd,
+    let mut summary = json!({"kind":"summary","rows":rows,"mismatches":nbad,"instructions_read_back":insts,"rows_with_forward_jump":with_fwd,
         "rows_with_loop_jump":with_loop,"rows_with_jump_table":with_table,"longest_body_bytes":max_code,
         "selftest":{"tried":st_tried,"detected":st_detected,"first_undetected":first_undetected}});
     if let Some(path) = opcode_rs {
